@@ -172,6 +172,9 @@ impl Property for C15 {
         if rng.chance(1, 30) {
             return repl_kept_session(rng);
         }
+        if rng.chance(1, 30) {
+            return repl_eager_client(rng);
+        }
         let fails = [
             Fail::DivZero,
             Fail::DivZero,
@@ -546,6 +549,36 @@ fn repl_kept_session(rng: &mut Rng) -> Scenario {
         expect: serde_json::json!({ "repl_kept": (n + 5).to_string() }),
         shape: h.0,
         est_len: 100,
+        min_quantum: 0,
+    }
+}
+
+/// A client that enters a line while the previous one is still running (quiver-web evaluates every
+/// queued line on its next tick): the second line may be refused or lost, the worker and the by-stander
+/// on it must survive.
+fn repl_eager_client(rng: &mut Rng) -> Scenario {
+    let n = rng.range(1, 40);
+    let sp = *rng.pick(&[30u32, 200, 600]);
+    let mut ops = vec![ClientOp::Line { session: 0, src: format!("{}, {BY}, b0 = [{n}, {sp}] @by, a = 7", super::c04::SPIN) }];
+    // a line that blocks (or runs long), entered without waiting for it
+    ops.push(ClientOp::Line { session: 0, src: format!("nowait>{}", *rng.pick(&["!#'int", "w = [3000, 0] spin", "z = ! [400]"])) });
+    ops.push(ClientOp::Line { session: 0, src: "nowait>a".to_string() });
+    // a second session ends the script; the by-stander is judged from the process table
+    ops.push(ClientOp::Line { session: 1, src: format!("{}, w = [800, 0] spin", super::c04::SPIN) });
+    let mut h = crate::rng::Fnv::default();
+    h.u64(0x4e93);
+    h.u64(sp as u64);
+    Scenario {
+        family: "c15-repl-eager-client".into(),
+        ops,
+        modules: vec![],
+        files: Default::default(),
+        timing: true,
+        io: false,
+        fixed_faults: Default::default(),
+        expect: serde_json::json!({ "repl_kept": (n + 5).to_string() }),
+        shape: h.0,
+        est_len: 150,
         min_quantum: 0,
     }
 }
